@@ -4,16 +4,23 @@ NOT_CLAIMED = {}
 
 PROPS = {
     'C24': {
-        'technique': 'Lean 4 theorems (varint round-trip/minimality/width, TP marshal->parse induction) + differential correspondence of the executable model against quicvarint and TransportParameters.Marshal',
-        'level_text': 'Kernel-checked theorems for all naturals (no bound): Append/Read round-trip with arbitrary continuation, Len minimality, AppendWithLen width+round-trip, panic exactly at >= 2^62, Marshal parses back to the parameter list by induction over the list. The model is tied to the code by running both on boundary-biased generated inputs on every run.',
+        'technique': 'Lean 4 theorems (varint round-trip/minimality/width, TP marshal->parse induction, slice-level transcription of append: result independent of spare capacity and of later calls) + differential correspondence of the executable model against quicvarint and TransportParameters.Marshal, incl. dirty destination buffers and sequences of Marshal calls whose results are held',
+        'level_text': 'Kernel-checked theorems for all naturals (no bound): Append/Read round-trip with arbitrary continuation, Len minimality, AppendWithLen width+round-trip, panic exactly at >= 2^62, Marshal parses back to the parameter list by induction over the list; Append/AppendWithLen/Marshal transcribed over Go slices (visible bytes + spare capacity + growth policy) give b ++ enc for every content of the spare capacity; every result of a sequence of Marshal calls parses back to its own list, also with memory modelled (heap of arrays: Marshal writes only arrays it allocated, so every returned slice read after all later calls still shows its own list). The model is tied to the code by running both on boundary-biased generated inputs on every run.',
         'level_note': 'Theorems are about the Lean transcription; tie = correspondence harness (differential, not exhaustive). Go runtime, bytes.Reader, crypto/rand trusted.',
-        'families': {'varint': (3000, 400000), 'varint_read': (1000, 100000), 'tps': (1500, 100000)},
-        'rule': 'varint: boundary values (all 2^k-1,2^k,2^k+1; every width limit ±1) then random values of random bit length x requested width; '
-                'tps: generated parameter lists over all 17 parameter types incl. GREASE (random and overridden) and fake ids. '
+        'families': {'varint': (3000, 400000), 'varint_read': (1000, 100000), 'tps': (1500, 100000), 'tps_seq': (600, 40000)},
+        'rule': 'varint: boundary values (all 2^k-1,2^k,2^k+1; every width limit ±1) then random values of random bit length x requested width '
+                'x destination slice (nil, len==cap, zeroed spare capacity, spare capacity filled with 0xff / given bytes incl. too small for the width, '
+                'scratch buffer reset after a longer encoding) with 0-9 visible bytes in front; '
+                'tps: generated parameter lists over all 17 parameter types incl. GREASE (random and overridden) and fake ids; '
+                'tps_seq: 2-4 different lists marshalled in sequence (directly, through the extension Len()/Read(), or mixed; produce/inspect orders permuted), '
+                'every held result inspected only after all were produced. '
                 'distinct = distinct input lines; non-trivial = value needing >1 byte, a panic outcome, or a non-empty parameter list',
-        'trivial_tag': r'^(len=1,w=legal,wl=ok|n=0,ok|empty)$',
-        'required_tags': [r'varint:len=1', r'varint:len=2', r'varint:len=4', r'varint:len=8', r'varint:len=panic', r'wl=ok', r'tps:n=4,ok', r'tps:.*panic', r'varint_read:.*eof'],
+        'trivial_tag': r'^(len=1,w=legal,wl=ok,dst=(nil|exact)|n=0,ok|empty)$',
+        'required_tags': [r'varint:len=1', r'varint:len=2', r'varint:len=4', r'varint:len=8', r'varint:len=panic', r'wl=ok', r'tps:n=4,ok', r'tps:.*panic', r'varint_read:.*eof',
+                          r'varint:len=1,.*dst=scr,stale-padding', r'varint:len=2,.*stale-padding', r'varint:len=4,.*stale-padding', r'varint:.*dst=ff,stale-padding', r'varint:.*dst=rnd',
+                          r'varint:.*dst=nil', r'varint:.*dst=exact', r'tps_seq:marshal', r'tps_seq:ext', r'tps_seq:mixed'],
         'assumptions': ['Go uint64/byte arithmetic and append/slices behave as modelled (validated by correspondence)',
+                        'memory model for result independence: heap = list of arrays, append writes in place when the array has room and allocates otherwise (tied by the tps_seq correspondence); sync.Pool, GC and escape analysis are not modelled',
                         'crypto/rand draws of GREASE parameters are inputs to the model (only their shape is checked)'],
         'trusted': ['modelled: quicvarint.Read/Append/AppendWithLen/Len, TransportParameters.Marshal, typed parameters ID()/Value(); bytes.Reader is trusted'],
     },
@@ -42,11 +49,13 @@ PROPS = {
     'C30': {
         'technique': 'Lean 4 theorems over a replica of math/rand Int63n/Int31n/int31n/Intn/Perm/Shuffle and prng.Intn/Int63n/Range/FlipWeightedCoin for every stream + differential correspondence on the tapped SHAKE stream',
         'level_text': 'Kernel-checked for every stream and every argument: Intn/Int63n in [0,n) and exactly 0 without consuming for n<=0; Range in [max(min,0),max] incl. the overflowing span; Perm/Shuffle are permutations; coin corners over an abstract float layer. Determinism = functionality of the model, tied by running the same seed twice and by predicting every result from the tapped stream.',
-        'level_note': 'SHAKE256/HKDF are not modelled (the stream is an input); "differs across salts" is cryptographic and only sampled; concurrency safety is exercised (partition-of-stream check), not proved.',
-        'families': {'prng': (3000, 300000), 'prng_conc': (40, 2000)},
-        'rule': 'random seeds x salted/unsalted x op sequences of Intn/Int63n/Range/FlipWeightedCoin/Perm/Uint64 with boundary arguments (<=0, 1, powers of two +-1, 2^31, 2^63-1, MinInt64; weights 0,1,>1,<0,NaN,inf,tiny); non-trivial = sequence with >= 2 different helper kinds',
-        'trivial_tag': r'^(plain|salted),.?$',
-        'required_tags': [r'prng:salted', r'prng:plain', r'prng:.*C', r'prng:.*R', r'prng:.*P', r'prng_conc:threads'],
+        'level_note': 'SHAKE256/HKDF are not modelled (the stream is an input; the salt enters through the HMAC key block only, modelled up to an uninterpreted rest F); "differs across salts" is cryptographic: proved from injectivity of F for salts that differ beyond trailing NULs, refuted with a witness for salts that differ by trailing NULs only (known finding), sampled on the code for salt pairs of 0..200 bytes incl. pairs sharing 32/64-byte prefixes, and the stream is compared with an independent SHAKE256(HKDF-SHA3-256) from the Go standard library; concurrency: proved for atomic calls (lock order = stream order), exercised on 16-32 goroutines x thousands of draws per case (partition-of-stream check), data-race freedom itself is not decided (thorough tier: the same concurrent draws under the Go race detector, family prng_race).',
+        'families': {'prng': (3000, 300000), 'prng_conc': (40, 2000), 'prng_race': (0, 2)},
+        'rule': 'salts of 0,1,4,31,32,33,40,64,65,100,136,137,200 bytes x second salt (same, extended, first/last byte changed, changed only beyond the first 32 / 64 bytes); prng_conc: 16-32 goroutines x 2000-4000 draws through Uint64/Int63/Int63n/Intn/Read on one prng (plus light 2-6 x 50-250 cases); random seeds x salted/unsalted x op sequences of Intn/Int63n/Range/FlipWeightedCoin/Perm/Uint64 with boundary arguments (<=0, 1, powers of two +-1, 2^31, 2^63-1, MinInt64; weights 0,1,>1,<0,NaN,inf,tiny); non-trivial = sequence with >= 2 different helper kinds',
+        'trivial_tag': r'^(plain|salted[a-z0-9,-]*),.?$',
+        'required_tags': [r'prng:salted', r'prng:plain', r'prng:.*C', r'prng:.*R', r'prng:.*P', r'prng_conc:threads',
+                          r'prng:salted-long,shared-prefix32', r'prng:salted,same-salt', r'prng:salted-long,other-salt', r'prng:salted,other-salt',
+                          r'prng_conc:threads=many,kinds=U$', r'prng_conc:threads=many,kinds=U[A-Z]*[KJN]'],
         'assumptions': ['a second prng built from the same seed yields the stream the first one consumes (that is the determinism clause itself and is also checked)'],
         'trusted': ['modelled: prng helpers and math/rand algorithms (Go 1.24); sha3/hkdf trusted; float64 semantics of the coin validated by correspondence only'],
     },
